@@ -1,0 +1,42 @@
+//go:build verif
+
+// Contracts for the verification machinery in /verif (comment-only; compiled only with -tags verif).
+//
+// The decorator reaches the keepers through interfaces; the contracts assume the concrete keepers that app.go
+// wires in (checked by the frame obligation interface-implementations-as-assumed).
+package ante
+
+//@ implements WrkchainKeeper github.com/unification-com/mainchain/x/wrkchain/keeper.Keeper
+//@ implements EnterpriseKeeper github.com/unification-com/mainchain/x/enterprise/keeper.Keeper
+
+// The expected fee is the sum over the transaction's messages of the current registration / record / per-slot fees;
+// the check passes only if the amount offered in the fee denomination equals it exactly (C06).
+//@ func checkWrkchainFees(ctx, tx, wck) (err)
+//@   props C06
+//@   requires wrkParamsSet(wrk_store) && validDenom(wrkParams(wrk_store).Denom)
+//@   pure
+//@   ensures @exact_fee err == nil ==> coinsAmt(txFee(tx), wrkParams(wrk_store).Denom) == wrkSumFee(arr(txMsgs(tx)), len(txMsgs(tx)), wrkParams(wrk_store))
+//@   loop 1: invariant 0 - 1 <= rangeindex && rangeindex < len(msgs) && msgs == txMsgs(tx) && expectedFeeDenom == wrkParams(wrk_store).Denom
+//@   loop 1: invariant expectedFees.Denom == wrkParams(wrk_store).Denom && !isnil(expectedFees.Amount) && Amt(expectedFees) == wrkSumFee(arr(msgs), rangeindex + 1, wrkParams(wrk_store)) && Amt(expectedFees) >= 0
+
+// The fee payer must be able to cover the fee from its balance plus locked eFUND, and from spendable plus locked.
+//@ func checkFeePayerHasFunds(ctx, bankKeeper, accKeeper, ek, wk, tx) (err)
+//@   props C06
+//@   requires wrkParamsSet(wrk_store) && validDenom(wrkParams(wrk_store).Denom) && ENT_BOOKS_WF(ent_store) && entDenom(ent_store) == wrkParams(wrk_store).Denom
+//@   pure
+//@   ensures @covered err == nil ==> balOf(bank_bal, bytesval(txFeePayer(tx)), wrkParams(wrk_store).Denom) + lockedAmt(ent_store, bytesval(txFeePayer(tx))) >= coinsAmt(txFee(tx), wrkParams(wrk_store).Denom)
+//@   ensures @covered_spendable err == nil ==> bankSpendable(bank_bal, bytesval(txFeePayer(tx)), wrkParams(wrk_store).Denom) + lockedAmt(ent_store, bytesval(txFeePayer(tx))) >= coinsAmt(txFee(tx), wrkParams(wrk_store).Denom)
+
+//@ func CorrectWrkChainFeeDecorator.AnteHandle(ctx, tx, simulate, next) (newCtx, err)
+//@   props C06
+//@   requires wrkParamsSet(wrk_store) && validDenom(wrkParams(wrk_store).Denom) && ENT_BOOKS_WF(ent_store) && entDenom(ent_store) == wrkParams(wrk_store).Denom
+//@   pure
+//@   at_next @exact_fee_at_checktx wrkTx(tx) && isCheckTx(ctx) && !simulate ==> coinsAmt(txFee(tx), wrkParams(wrk_store).Denom) == wrkSumFee(arr(txMsgs(tx)), len(txMsgs(tx)), wrkParams(wrk_store))
+//@   at_next @never_mixed_with_other_module wrkTx(tx) ==> !beaTx(tx)
+//@   at_next @fee_payer_can_cover wrkTx(tx) ==> balOf(bank_bal, bytesval(txFeePayer(tx)), wrkParams(wrk_store).Denom) + lockedAmt(ent_store, bytesval(txFeePayer(tx))) >= coinsAmt(txFee(tx), wrkParams(wrk_store).Denom) && bankSpendable(bank_bal, bytesval(txFeePayer(tx)), wrkParams(wrk_store).Denom) + lockedAmt(ent_store, bytesval(txFeePayer(tx))) >= coinsAmt(txFee(tx), wrkParams(wrk_store).Denom)
+
+// The slot check only reads; what it guarantees about the requested slots is not under contract yet.
+//@ func checkWrkChainMaxSlots(ctx, tx, wck) (err)
+//@   props C06 C08
+//@   requires wrkParamsSet(wrk_store)
+//@   pure
